@@ -464,4 +464,217 @@ theorem mpoly_interior_widest (locOf : Poly → Pt → Pos) (ps : List Poly) (x 
   simp only at this
   linarith
 
+/-! ### Rect and Triangle: the returned point is strictly inside -/
+
+/-- [T] the centre of a non-degenerate `Rect` is strictly inside it (`Rect: Contains<Coord>`). -/
+theorem rect_interior_strict (len : Pt → Pt → Rat) (locOf : Poly → Pt → Pos) (mn mx : Pt)
+    (hx : mn.x < mx.x) (hy : mn.y < mx.y) :
+    ∃ x, interior len locOf (.rect mn mx) = some x ∧ rectContainsCoord mn mx x = true := by
+  refine ⟨Cen.rectCenter mn mx, by simp [interior], ?_⟩
+  rw [rectContainsCoord_iff]
+  simp only [Cen.rectCenter]
+  refine ⟨?_, ?_, ?_, ?_⟩ <;> linarith
+
+example : interior (fun _ _ => 1) (fun _ _ => .outside) (.rect ⟨0, 0⟩ ⟨4, 2⟩) = some ⟨2, 1⟩ := by
+  decide +kernel
+
+theorem triangle_centroid_eq (len : Pt → Pt → Rat) (a b c : Pt) (h : crossProd a b c ≠ 0) :
+    Cen.centroid len (.triangle a b c) = some (Cen.Pt.divS (a + b + c) 3) := by
+  have hw : rabs (Cen.triArea a b c) ≠ 0 := by
+    have : Cen.triArea a b c = crossProd a b c / 2 := by
+      simp only [Cen.triArea, Cen.det, crossProd, sub_x, sub_y]
+    rw [this]
+    unfold rabs
+    split
+    · intro h0; apply h; linarith
+    · intro h0; apply h; linarith
+  simp only [Cen.centroid, Cen.addGeom, Cen.addTriangle, Cen.triDims, h, if_false]
+  simp only [Cen.addCentroid, Cen.addWC, Cen.Op.centroid, Option.map_some, Option.some.injEq]
+  generalize rabs (Cen.triArea a b c) = w at hw
+  apply Pt.ext'
+  · simp only [Cen.Pt.divS, Pt.smul]; field_simp
+  · simp only [Cen.Pt.divS, Pt.smul]; field_simp
+
+@[simp] private theorem add_x (a b : Pt) : (a + b).x = a.x + b.x := rfl
+@[simp] private theorem add_y (a b : Pt) : (a + b).y = a.y + b.y := rfl
+
+/-- [T] the interior point of a non-degenerate `Triangle` is its vertex average and lies strictly
+inside it (`Triangle: Contains<Coord>`: strictly the same side of all three edges). -/
+theorem triangle_interior_strict (len : Pt → Pt → Rat) (locOf : Poly → Pt → Pos) (a b c : Pt)
+    (h : crossProd a b c ≠ 0) :
+    ∃ x, interior len locOf (.triangle a b c) = some x ∧ triContainsCoord a b c x = true := by
+  refine ⟨Cen.Pt.divS (a + b + c) 3, by simp only [interior]; exact triangle_centroid_eq len a b c h, ?_⟩
+  rw [triContainsCoord_iff]
+  have e1 : cross a b (Cen.Pt.divS (a + b + c) 3) = crossProd a b c / 3 := by
+    simp only [cross, crossProd, Cen.Pt.divS, add_x, add_y]; ring
+  have e2 : cross b c (Cen.Pt.divS (a + b + c) 3) = crossProd a b c / 3 := by
+    simp only [cross, crossProd, Cen.Pt.divS, add_x, add_y]; ring
+  have e3 : cross c a (Cen.Pt.divS (a + b + c) 3) = crossProd a b c / 3 := by
+    simp only [cross, crossProd, Cen.Pt.divS, add_x, add_y]; ring
+  rw [e1, e2, e3]
+  rcases lt_or_gt_of_ne h with hn | hp
+  · right; refine ⟨?_, ?_, ?_⟩ <;> linarith
+  · left; refine ⟨?_, ?_, ?_⟩ <;> linarith
+
+example : interior (fun _ _ => 1) (fun _ _ => .outside) (.triangle ⟨0, 0⟩ ⟨3, 0⟩ ⟨0, 3⟩) = some ⟨1, 1⟩ := by
+  decide +kernel
+
+/-! ### the scan line avoids every vertex -/
+
+/-- [T] `yMid_avoids_vertices`: as soon as the polygon's coordinates do not all share the middle
+ordinate, the chosen scan ordinate differs from the ordinate of *every* coordinate (so the scan
+line crosses edges only in their relative interiors — the "reduce the likelihood of collinear
+intersections" comment is in fact a guarantee). -/
+theorem yMid_avoids_vertices (mn mx : Pt) (coords : List Pt)
+    (h : ∃ c ∈ coords, c.y ≠ (mn.y + mx.y) / 2) : ∀ c ∈ coords, c.y ≠ yMid mn mx coords := by
+  intro v hv
+  unfold yMid
+  simp only
+  by_cases hany : (coords.any fun c => c.y == (mn.y + mx.y) / 2) = true
+  · simp only [hany, if_true]
+    obtain ⟨c0, hc0, hne0⟩ := h
+    have hmem0 : c0.y ∈ (coords.filter (fun c => !(c.y == (mn.y + mx.y) / 2))).map (·.y) :=
+      List.mem_map.2 ⟨c0, List.mem_filter.2 ⟨hc0, by simpa using hne0⟩, rfl⟩
+    obtain ⟨m, hm⟩ := minByKey_isSome
+      (fun (y x : Rat) => decide (rabs (y - (mn.y + mx.y) / 2) < rabs (x - (mn.y + mx.y) / 2)))
+      (List.ne_nil_of_mem hmem0)
+    rw [hm]
+    simp only
+    have hmin := minByKey_min (fun y : Rat => rabs (y - (mn.y + mx.y) / 2)) hm
+    have hmm := minByKey_mem _ hm
+    obtain ⟨cm, hcm, hcmy⟩ := List.mem_map.1 hmm
+    have hmne : m ≠ (mn.y + mx.y) / 2 := by
+      have := (List.mem_filter.1 hcm).2
+      rw [← hcmy]; simpa using this
+    intro heq
+    by_cases hvy : v.y = (mn.y + mx.y) / 2
+    · apply hmne; linarith
+    · have hvm : v.y ∈ (coords.filter (fun c => !(c.y == (mn.y + mx.y) / 2))).map (·.y) :=
+        List.mem_map.2 ⟨v, List.mem_filter.2 ⟨hv, by simpa using hvy⟩, rfl⟩
+      have hle := hmin _ hvm
+      have hv2 : v.y - (mn.y + mx.y) / 2 = (m - (mn.y + mx.y) / 2) / 2 := by rw [heq]; ring
+      rw [hv2] at hle
+      have hpos : 0 < rabs (m - (mn.y + mx.y) / 2) := by
+        unfold rabs; split
+        · linarith
+        · rename_i hge
+          have : m - (mn.y + mx.y) / 2 ≠ 0 := fun h0 => hmne (by linarith)
+          rcases lt_or_gt_of_ne this with h1 | h1
+          · exact absurd h1 hge
+          · exact h1
+      have hhalf : rabs ((m - (mn.y + mx.y) / 2) / 2) = rabs (m - (mn.y + mx.y) / 2) / 2 := by
+        unfold rabs
+        by_cases hneg : m - (mn.y + mx.y) / 2 < 0
+        · have : (m - (mn.y + mx.y) / 2) / 2 < 0 := by linarith
+          simp only [hneg, this, if_true]; ring
+        · have : ¬ (m - (mn.y + mx.y) / 2) / 2 < 0 := by linarith
+          simp only [hneg, this, if_false]
+      rw [hhalf] at hle
+      linarith
+  · simp only [hany]
+    intro heq
+    apply hany
+    rw [List.any_eq_true]
+    exact ⟨v, hv, by simpa using heq⟩
+
+example : yMid ⟨0, 0⟩ ⟨2, 2⟩ [⟨0, 0⟩, ⟨2, 1⟩, ⟨0, 2⟩] = 1 / 2 := by decide +kernel
+
+/-- [T] every scan candidate lies on the scan line `y = yMid`. -/
+theorem scanCands_on_scan_line (poly : Poly) (mn mx : Pt) :
+    ∀ c ∈ scanCands poly mn mx, c.1.y = yMid mn mx poly.coords := by
+  intro c hc
+  simp only [scanCands, List.mem_map] at hc
+  obtain ⟨c', _, rfl⟩ := hc
+  rfl
+
+/-! ### GeometryCollection: a member of the highest dimension present -/
+
+private theorem interiorCands_mem (len : Pt → Pt → Rat) (locOf : Poly → Pt → Pos) :
+    ∀ (gs : List Geom) (pd : Pt × Dim), pd ∈ interiorCands len locOf gs ↔
+      ∃ g ∈ gs, interior len locOf g = some pd.1 ∧ dims g = pd.2
+  | [], pd => by simp [interiorCands]
+  | g :: gs, pd => by
+    simp only [interiorCands]
+    cases hi : interior len locOf g with
+    | none =>
+      rw [interiorCands_mem len locOf gs pd]
+      constructor
+      · rintro ⟨g', hg', h⟩; exact ⟨g', List.mem_cons_of_mem _ hg', h⟩
+      · rintro ⟨g', hg', h⟩
+        rcases List.mem_cons.1 hg' with rfl | hg'
+        · rw [hi] at h; simp at h
+        · exact ⟨g', hg', h⟩
+    | some y =>
+      rw [List.mem_cons, interiorCands_mem len locOf gs pd]
+      constructor
+      · rintro (h | ⟨g', hg', h⟩)
+        · exact ⟨g, List.mem_cons_self, by rw [hi, h], by rw [h]⟩
+        · exact ⟨g', List.mem_cons_of_mem _ hg', h⟩
+      · rintro ⟨g', hg', h⟩
+        rcases List.mem_cons.1 hg' with rfl | hg'
+        · left
+          rw [hi] at h
+          simp only [Option.some.injEq] at h
+          exact Prod.ext h.1.symm h.2.symm
+        · exact Or.inr ⟨g', hg', h⟩
+
+/-- the fold of `min_by` with the `(Reverse(dimensions), distance)` key never ends on an element of
+lower dimension than one it has seen -/
+private theorem foldPick_collLt_dim (c : Pt) :
+    ∀ (as : List (Pt × Dim)) (a : Pt × Dim),
+      ∀ b ∈ a :: as, b.2.rank ≤ (as.foldl (fun x y => if collLt c y x then y else x) a).2.rank
+  | [], a => by intro b hb; simp only [List.mem_singleton] at hb; simp [hb]
+  | d :: ds, a => by
+    intro b hb
+    simp only [List.foldl_cons]
+    have ih := foldPick_collLt_dim c ds (if collLt c d a then d else a)
+    have hstart : a.2.rank ≤ (if collLt c d a then d else a).2.rank ∧
+        d.2.rank ≤ (if collLt c d a then d else a).2.rank := by
+      by_cases hl : collLt c d a = true
+      · simp only [hl, if_true]
+        simp only [collLt, Bool.or_eq_true, decide_eq_true_eq, Bool.and_eq_true, beq_iff_eq] at hl
+        rcases hl with hl | hl
+        · exact ⟨le_of_lt hl, le_refl _⟩
+        · exact ⟨le_of_eq hl.1.symm, le_refl _⟩
+      · simp only [hl]
+        simp only [collLt, Bool.or_eq_true, decide_eq_true_eq, Bool.and_eq_true, beq_iff_eq, not_or] at hl
+        exact ⟨le_refl _, not_lt.1 hl.1⟩
+    rcases List.mem_cons.1 hb with rfl | hb
+    · exact le_trans hstart.1 (ih _ List.mem_cons_self)
+    · rcases List.mem_cons.1 hb with rfl | hb
+      · exact le_trans hstart.2 (ih _ List.mem_cons_self)
+      · exact ih b (List.mem_cons_of_mem _ hb)
+
+/-- [T] `collection_interior_top_dim`: the interior point of a `GeometryCollection` is the interior
+point of one of its members, and that member has the highest dimension among all members that have
+an interior point at all ("maximize dimensions" wins over distance). -/
+theorem collection_interior_top_dim (len : Pt → Pt → Rat) (locOf : Poly → Pt → Pos) (gs : List Geom)
+    (x : Pt) (h : interior len locOf (.collection gs) = some x) :
+    ∃ g ∈ gs, interior len locOf g = some x ∧
+      ∀ g' ∈ gs, interior len locOf g' ≠ none → (dims g').rank ≤ (dims g).rank := by
+  simp only [interior] at h
+  cases hc : Cen.centroid len (.collection gs) with
+  | none => rw [hc] at h; simp at h
+  | some c =>
+    rw [hc] at h
+    simp only [Option.map_eq_some_iff] at h
+    obtain ⟨pd, hpd, hx⟩ := h
+    have hm := minByKey_mem _ hpd
+    obtain ⟨g, hg, hig, hdg⟩ := (interiorCands_mem len locOf gs pd).1 hm
+    refine ⟨g, hg, by rw [hig, hx], ?_⟩
+    intro g' hg' hne
+    cases hi' : interior len locOf g' with
+    | none => exact absurd hi' hne
+    | some y =>
+      have hm' : (y, dims g') ∈ interiorCands len locOf gs :=
+        (interiorCands_mem len locOf gs (y, dims g')).2 ⟨g', hg', hi', rfl⟩
+      cases hl : interiorCands len locOf gs with
+      | nil => rw [hl] at hm'; simp at hm'
+      | cons a as =>
+        rw [hl] at hpd hm'
+        simp only [minByKey, Option.some.injEq] at hpd
+        have := foldPick_collLt_dim c as a _ hm'
+        rw [hpd] at this
+        rw [hdg]; exact this
+
 end Geo.Proofs.C12
